@@ -210,12 +210,10 @@ package gtab
 //@ assume func (info FeatureListInfo) encode() (res []byte)
 //@   ensures isnil(res) || fresh(res)
 //@   modifies nothing
-//@ assume func (ll LookupList) encode() (res []byte)
-//@   ensures isnil(res) || fresh(res)
-//@   modifies nothing
 //@ func (info *Info) Encode() (res []byte)   props: C08
 //@   encoder
 //@   requires info != nil
+//@   requires len(info.LookupList) < 16384 && forall i int :: 0 <= i && i < len(info.LookupList) ==> info.LookupList[i] != nil && len(info.LookupList[i].Subtables) < 16384   // larger lists are refused by panic in LookupList.encode
 //@   opt assume_make=1
 //@   may_panic
 //@   modifies nothing
@@ -240,6 +238,7 @@ package gtab
 //@   ensures isnil(res) || fresh(res)
 //@   modifies nothing
 //@ func (ll LookupList) encode() (res []byte)   props: C08
+//@   ensures isnil(res) || fresh(res)
 //@   encoder
 //@   opt only=frame
 //@   opt assume_make=1
